@@ -148,9 +148,65 @@ def cases(draw, name, nmax):
     return c
 
 
+def _set_partitions(n):
+    """all set partitions of range(n) as restricted-growth label vectors (labels 1..k)"""
+    out = []
+
+    def rec(i, cur, k):
+        if i == n:
+            out.append(list(cur))
+            return
+        for l in range(1, k + 2):
+            cur.append(l)
+            rec(i + 1, cur, max(k, l))
+            cur.pop()
+    rec(0, [], 0)
+    return out
+
+
+_EXH = {}
+
+
+def _exh_list(tier):
+    """(routine, matrix, start partition, seed) for every small graph x every start partition"""
+    if tier in _EXH:
+        return _EXH[tier]
+    from .. import gen
+    import numpy as np
+    items = []
+    und = [(3, False), (4, False)] + ([(5, False)] if tier == "thorough" else [])
+    dire = [(3, True)] + ([(4, True)] if tier == "thorough" else [])
+    seeds = [0, 1] if tier == "quick" else [0, 1, 2, 3]
+    for n, d in und + dire:
+        parts = _set_partitions(n)
+        step = 1 if (n, d) != (4, True) else 5
+        for idx in range(1, gen.n_graphs(n, d), step):
+            A = gen.graph_from_index(n, idx, d).astype(float)
+            fns = ["modularity_finetune_dir", "community_louvain"] if d else ["modularity_finetune_und", "community_louvain", "modularity_finetune_und_sign"]
+            for fn in fns:
+                for ci in parts:
+                    for sd in seeds:
+                        items.append((fn, A, ci, sd))
+    _EXH[tier] = items
+    return items
+
+
+def _exh_cases(tier, lo, hi):
+    import numpy as np
+    for fn, A, ci, sd in _exh_list(tier)[lo:hi]:
+        c = {"fn": fn, "W": A, "gamma": 1.0, "ci0": np.array(ci), "seed": sd}
+        if fn == "community_louvain":
+            c["objective"] = "modularity"
+        if fn == "modularity_finetune_und_sign":
+            c["qtype"] = "sta"
+        yield c
+
+
 def units(tier):
     nmax = 10 if tier == "quick" else 18
-    us = []
+    us = [Unit("exhaustive-small-graphs-all-starts", check, count=lambda t: len(_exh_list(t)), cases=_exh_cases, shards=(16, 64),
+               space="every labelled graph n<=4 (thorough: n<=5) and digraph n=3 (thorough: + every 5th n=4) with >= 1 edge x every set "
+                     "partition as start x seeds {0,1} (thorough {0..3}) for finetune_und / finetune_und_sign / finetune_dir / community_louvain, gamma=1")]
     for name in mc.OPTIMISERS:
         ex = (500, 6000) if name == "community_louvain" else (300, 4000)
         us.append(Unit(name, check, strategy=(lambda nm=name: cases(nm, nmax)), examples=ex, shards=(2, 8)))
